@@ -114,4 +114,23 @@ theorem feed_done_progress (σ : BState) (buf : Bytes) (r : Response) :
   | case5 σ buf h => intro hh; simp at hh
   | case6 σ buf h => intro hh; simp at hh
 
+theorem bstep_some_initial (σ : BState) (pc : Piece) (r : Response) (h : (bstep σ pc).2 = some r) :
+    (bstep σ pc).1 = .initial := by
+  cases σ <;> cases pc <;> simp_all [bstep]
+
+/-- a completed response leaves the builder in its initial state (`finish` / `error` reset it) -/
+theorem feed_done_initial (σ : BState) (buf : Bytes) (r : Response) :
+    (feed σ buf).2.2 = .done r → (feed σ buf).1 = .initial := by
+  fun_induction feed σ buf with
+  | case1 σ buf c rest h hlt hp => intro hh; simp at hh
+  | case2 σ buf c rest h hlt pc hpc σ' r' hb =>
+    intro _
+    have := bstep_some_initial σ pc r' (by rw [hb])
+    rw [hb] at this
+    simpa using this
+  | case3 σ buf c rest h hlt pc hpc σ' hb ih => intro hh; exact ih hh
+  | case4 σ buf h => intro hh; simp at hh
+  | case5 σ buf h => intro hh; simp at hh
+  | case6 σ buf h => intro hh; simp at hh
+
 end Mpd.Builder
